@@ -336,6 +336,7 @@ viol = [("proof of possession of bundle 2 is broken", dict(base1, ksr=bad_pop)),
         ("the KSR is for another domain", dict(base1, ksr=dict(KSR1, domain="example"))),
         ("the signature validity differs from the ZSK policy", dict(base1, ksr=skrgen.honest_request("next-req", KSR1["bundles"][0]["inc"], 2, [b["keys"] for b in KSR1["bundles"]], ZP, validity=D(days=25)))),
         ("the KSR replays the id of the previous SKR", dict(base1, ksr=successor(PREV1, ZP, rid=PREV1["id"]))),
+        ("the KSR replays the id of the previous SKR under another serial", dict(base1, ksr=dict(successor(PREV1, ZP, rid=PREV1["id"]), serial=5))),
         ("the overlap with the previous SKR is below the minimum", dict(base1, ksr=successor(PREV1, ZP, overlap=D(days=8)))),
         ("the first bundle's keys are not those of the previous SKR's last bundle", dict(base1, ksr=successor(PREV1, ZP, first_keys=[ZSKS[3]]))),
         ("the KSR is truncated", dict(base1, ksr=ksrxml.render_ksr(KSR1).encode()[:900], shape=([2, 1], 2))),
@@ -362,6 +363,16 @@ go(dict(base1, schema="unpublished", why="publish safety", via_main=True, out_ex
 for existing in (None, OLD):
     go(dict(base1, schema="short", why="the schema has no action for bundle 2", out_existing=existing), "schema-too-short", "post-sign-failure")
     go(dict(base1, schema="short", prev=None, why="the schema has no action for bundle 2", out_existing=existing), "schema-too-short", "post-sign-failure")
+# ---- D3. everything succeeds up to the write, and the SKR cannot be serialised (the KSR's policy names an algorithm the writer cannot express):
+#          nothing may be left at the output path, an existing file stays as it was
+ZP_EC = ksrxml.default_zsk_policy(algs=[("RSA", 8, 1024, 65537), ("ECDSA", 13, 256)])
+PREV_EC = prev_skr(2, SCHEMA1, ZP_EC)
+KSR_EC = successor(PREV_EC, ZP_EC)
+for existing in (None, OLD):
+    for with_prev in (True, False):
+        go(dict(ksr=KSR_EC, prev=PREV_EC if with_prev else None, schema="one", force=True, out_existing=existing,
+                request_policy={"enable_unsupported_ecdsa": True, "approved_algorithms": ["RSASHA256", "ECDSAP256SHA256"]},
+                why="the generated SKR cannot be written (its ZSK policy names an ECDSA algorithm)"), "write-stage-failure", "post-sign-failure")
 # ---- E. token faults at every position of the operation sequence
 KINDS = {"open": ["error"], "login": ["error"], "find": ["error", "missing", "duplicate"], "attr": ["error"], "sign": ["error", "corrupt", "truncate", "wrong-key", "wrong-hash"]}
 FAULT_BASES = [(base1, "one-signer"), (base2, "two-signers")]
